@@ -73,6 +73,7 @@ func lockScenarios(thorough bool) []atomSc {
 		"WritablePartitions:t~Leader:t:0~Partitions:t",
 		"Leader:t:0~WritablePartitions:t/Partitions:t",
 		"Brokers~Leader:t:1~Brokers",
+		"Leader:t:1~Leader:t:0", // t/1 is the partition whose leader is the broker that goes away / moves
 	}
 	b := 2
 	if thorough {
